@@ -327,8 +327,15 @@ agree on everything but the choice bookkeeping.  `explore` yields choice lists; 
 set of `readselection … choices` over them, so every element IS an outcome of the verified function
 (`Props.C07.allOutcomes_sound`). -/
 
-def sortNat (l : List Nat) : List Nat := l.mergeSort (fun a b => decide (a ≤ b))
-def sortCov (c : Cov) : Cov := c.mergeSort (fun a b => decide (a.1 < b.1) || (a.1 == b.1 && decide (a.2 ≤ b.2)))
+/-- insertion sort (structural, so that closed instances reduce in the kernel) -/
+def insertBy {α : Type} (le : α → α → Bool) (x : α) : List α → List α
+  | [] => [x]
+  | y :: ys => if le x y then x :: y :: ys else y :: insertBy le x ys
+
+def sortBy {α : Type} (le : α → α → Bool) (l : List α) : List α := l.foldr (insertBy le) []
+
+def sortNat (l : List Nat) : List Nat := sortBy (fun a b => decide (a ≤ b)) l
+def sortCov (c : Cov) : Cov := sortBy (fun a b => decide (a.1 < b.1) || (a.1 == b.1 && decide (a.2 ≤ b.2))) c
 
 def dedupBy {α κ : Type} [BEq κ] (key : α → κ) (l : List α) : List α :=
   (l.foldl (fun (acc : List (κ × α)) x => let kx := key x; if acc.any (fun p => p.1 == kx) then acc else (kx, x) :: acc) []).reverse.map (·.2)
